@@ -72,15 +72,14 @@ def fmt(l):
     return "%d %s" % (len(l), " ".join(map(str, l)))
 
 
-def run(ctx):
-    q = ctx.quick
-    rng = ctx.rng.fork("ksum")
+def compose_lines(rng, count):
+    """valid and invalid operand pairs for the four compose functions, special lines at random positions and in either
+    order; one in five corrupted (an entry, or an index out of range)"""
     lines = []
-    for _ in range(12000 if q else 150000):
+    for _ in range(count):
         kind = rng.choice([2, 3, 4, 5, 5])
         p = rng.choice([2, 3])
         M1, M2, fsr, fsc, ssr, ssc = operands(rng, kind, p)
-        # permute the special lines to random positions and corrupt sometimes
         r = rng.below(10)
         if r == 0:
             M1 = gen.corrupt(rng, M1, (0, 1) if p == 2 else (-1, 0, 1))
@@ -93,6 +92,13 @@ def run(ctx):
             ssr = ssr[:]
             ssr[0] = rng.below(len(M2) + 1)
         lines.append("%d %d %s %s %s %s %s %s" % (kind, p, mat_line(M1), mat_line(M2), fmt(fsr), fmt(fsc), fmt(ssr), fmt(ssc)))
+    return lines
+
+
+def run(ctx):
+    q = ctx.quick
+    rng = ctx.rng.fork("ksum")
+    lines = compose_lines(rng, 12000 if q else 150000)
     def keyfn(line, code):
         t = line.split()
         if code == 140 and t[0] == "5" and t[1] == "2":
